@@ -512,7 +512,7 @@ func init() {
 		if pos == 0 {
 			return cat(sv("0", "12", "-12", "z", "", "1_000", "+5", "0x10", "12.5", " 1", "FF", "zz", "Zz", "-", "9223372036854775808", "e\u0301", "101", "-0"), []cty.Value{N(12), cty.True, listOf(cty.String, S("1")), tup(), objOf()})
 		}
-		return cat(nv(10, 2, 16, 36, 62, 63, 1, 0, -1, 2.5, 37), []cty.Value{cty.NumberUIntVal(1 << 63), cty.PositiveInfinity, cty.NegativeInfinity})
+		return cat(nv(10, 2, 16, 36, 62, 63, 1, 0, -1, 2.5, 37), []cty.Value{cty.NumberUIntVal(1 << 63), cty.PositiveInfinity, cty.NegativeInfinity}, intEdgeNums())
 	})
 	// regexp
 	pats := sv("", "a", "(a)", "(?P<x>a)", "(?P<x>a)(b)", "(", "[a-z]+", "(a)|(b)", "(?P<x>a)|(?P<y>b)", ".*", "\\d+", "^$", "(a)(b)?", "(?P<x>a)(?P<y>b)?", "a*", "\u00e9", "e\u0301", "(?i)A", "\\p{L}+", "[", "(?P<x>", "\\", "(?P<e\u0301>a)", "b|(a)")
@@ -551,7 +551,7 @@ func init() {
 		return out
 	})
 	add("range", stdlib.RangeFunc, func(pos int, th bool) []cty.Value {
-		out := cat(nv(0, 1, -1, 2, 3, 0.5, -0.5, 5, 1025, -1025, 1024), []cty.Value{cty.PositiveInfinity, cty.NegativeInfinity, cty.NumberUIntVal(1 << 63)})
+		out := cat(nv(0, 1, -1, 2, 3, 0.5, -0.5, 5, 1025, -1025, 1024), []cty.Value{cty.PositiveInfinity, cty.NegativeInfinity, cty.NumberUIntVal(1 << 63), cty.NumberIntVal(math.MaxInt64), cty.NumberIntVal(math.MaxInt64 - 1), cty.NumberIntVal(math.MinInt64)})
 		if th {
 			out = append(out, nv(10, 0.1, -3, 4, 1023)...)
 			out = append(out, parseNum("1e30"), parseNum("0.1"), parseNum("1e-30"))
